@@ -269,6 +269,6 @@ func runRKG(c RKGCase, rec *h.Rec) error {
 	return nil
 }
 
-var propRKG = h.NewProp("TestPropCollectiveRelinearizationKey", h.Budget{Quick: 800, Thorough: 16000}, genRKG, runRKG)
+var propRKG = h.NewProp("TestPropCollectiveRelinearizationKey", h.Budget{Quick: 500, Thorough: 10000}, genRKG, runRKG)
 
 func TestPropCollectiveRelinearizationKey(t *testing.T) { propRKG.Check(t) }
